@@ -176,3 +176,97 @@ Example c04_witness :
   Some [[[97; 46; 107; 58; 49; 124; 99; 124; 35; 120; 58; 121; 44; 122; 44; 116; 58; 117; 124; 99; 58; 112; 112]];
         [[97; 46; 107; 58; 49; 124; 99; 124; 35; 120; 58; 121; 44; 122; 44; 116; 58; 117; 124; 99; 58; 100; 100]]]%N.
 Proof. vm_compute. repeat split. Qed.
+
+(* ==== added after the audit of 2026-10-02 (selftest/audit/REPORT-2026-10-02.md) ==== *)
+Require Import Cadence.Proofs.AuditM1.
+(* incr / decr (CountedExt) are count_with_tags(key, 1) / count_with_tags(key, -1) followed by
+   the caller's builder calls: this is the reading of the two definitions of Proofs/AuditM1.v *)
+Theorem c04_incr_decr_reading : forall key ops,
+  incr_call key ops = {| k_kind := Counter; k_key := key; k_arg := AI64 1; k_ops := ops |} /\
+  decr_call key ops = {| k_kind := Counter; k_key := key; k_arg := AI64 (-1); k_ops := ops |}.
+Proof. intros key ops. split; reflexivity. Qed.
+
+(* incr on a client with defaults (clean strings): the line exists, a server parses it, and
+   reads the value 1, the counter code, the default tags first then the call's tags, the
+   per-call container id if given else the default one, the rate and timestamp of the call *)
+Theorem c04_incr : forall cfg key ops,
+  config_ok cfg = true -> call_ok (incr_call key ops) = true ->
+  exists l p, client_line cfg (incr_call key ops) = Some (inr l) /\ parse_line l = Some p /\
+    p_name p = match c_prefix cfg with
+               | [] => key
+               | _ :: _ => trim_end_dots (c_prefix cfg) ++ b_dot :: key
+               end /\
+    p_values p = [render_Z 1] /\ p_values p = [[49%N]] /\ map parse_Z (p_values p) = [Some 1%Z] /\
+    p_type p = code Counter /\
+    p_rate p = op_rate ops /\
+    p_tags p = c_tags cfg ++ op_tags ops /\
+    p_container p = match op_container ops with Some x => Some x | None => c_container cfg end /\
+    p_timestamp p = op_timestamp ops.
+Proof. exact incr_parsed. Qed.
+
+(* the same for decr: the value read is -1 ("-1") *)
+Theorem c04_decr : forall cfg key ops,
+  config_ok cfg = true -> call_ok (decr_call key ops) = true ->
+  exists l p, client_line cfg (decr_call key ops) = Some (inr l) /\ parse_line l = Some p /\
+    p_name p = match c_prefix cfg with
+               | [] => key
+               | _ :: _ => trim_end_dots (c_prefix cfg) ++ b_dot :: key
+               end /\
+    p_values p = [render_Z (-1)] /\ p_values p = [[45%N; 49%N]] /\ map parse_Z (p_values p) = [Some (-1)%Z] /\
+    p_type p = code Counter /\
+    p_rate p = op_rate ops /\
+    p_tags p = c_tags cfg ++ op_tags ops /\
+    p_container p = match op_container ops with Some x => Some x | None => c_container cfg end /\
+    p_timestamp p = op_timestamp ops.
+Proof. exact decr_parsed. Qed.
+
+(* for ALL strings (no cleanness hypothesis): an i64 counter call — incr is z = 1, decr is
+   z = -1 — is never rejected and never ill-typed, and its line is the grammar instance with
+   the one value text render_Z z, the decorations in the order of C04 *)
+Theorem c04_count_line : forall cfg key z ops,
+  client_line cfg {| k_kind := Counter; k_key := key; k_arg := AI64 z; k_ops := ops |} =
+  Some (inr (match c_prefix cfg with
+             | [] => key
+             | _ :: _ => trim_end_dots (c_prefix cfg) ++ b_dot :: key
+             end ++ b_colon :: render_Z z ++ b_pipe :: code Counter
+        ++ match op_rate ops with Some r => b_pipe :: b_at :: r | None => [] end
+        ++ match c_tags cfg ++ op_tags ops with
+           | [] => []
+           | _ :: _ => b_pipe :: b_hash :: join b_comma (map render_tag (c_tags cfg ++ op_tags ops))
+           end
+        ++ match (match op_container ops with Some x => Some x | None => c_container cfg end) with
+           | Some x => b_pipe :: b_c :: b_colon :: x | None => [] end
+        ++ match op_timestamp ops with Some t => b_pipe :: b_T :: render_N t | None => [] end)).
+Proof. exact count_call_line. Qed.
+
+(* every call form of incr / decr hands the sink exactly that one line and consumes one sink
+   outcome; an invalid-input error is impossible *)
+Theorem c04_incr_decr_sent : forall cfg fm key ops script,
+  (exists o l, send_call cfg fm (incr_call key ops) script = Some (o, tl script) /\
+     client_line cfg (incr_call key ops) = Some (inr l) /\ o_emitted o = [l] /\
+     o_ret o <> RError EInvalid /\ ~ In EInvalid (o_handled o)) /\
+  (exists o l, send_call cfg fm (decr_call key ops) script = Some (o, tl script) /\
+     client_line cfg (decr_call key ops) = Some (inr l) /\ o_emitted o = [l] /\
+     o_ret o <> RError EInvalid /\ ~ In EInvalid (o_handled o)).
+Proof.
+  intros cfg fm key ops script.
+  split; [exact (count_call_sent cfg fm key 1 ops script)|exact (count_call_sent cfg fm key (-1) ops script)].
+Qed.
+
+(* "a.k:1|c|#x:y,t:u|c:pp"  and  "a.k:-1|c|#x:y|c:dd" *)
+Example c04_incr_decr_witness :
+  let cfg := {| c_prefix := [97]%N; c_tags := [(Some [120]%N, [121]%N)]; c_container := Some [100; 100]%N |} in
+  let ops := [WithTag [116]%N [117]%N; WithContainerId [112; 112]%N] in
+  config_ok cfg = true /\ call_ok (incr_call [107]%N ops) = true /\ call_ok (decr_call [107]%N []) = true /\
+  client_line cfg (incr_call [107]%N ops) =
+    Some (inr [97; 46; 107; 58; 49; 124; 99; 124; 35; 120; 58; 121; 44; 116; 58; 117; 124; 99; 58; 112; 112]%N) /\
+  client_line cfg (decr_call [107]%N []) =
+    Some (inr [97; 46; 107; 58; 45; 49; 124; 99; 124; 35; 120; 58; 121; 124; 99; 58; 100; 100]%N).
+Proof. exact incr_decr_witness. Qed.
+
+(* the harness's `incr` / `decr` calls reach the model with exactly these arguments (Client.incr_arg / decr_arg are
+   what the correspondence glue passes): the calls the theorems above speak about *)
+Theorem c04_incr_decr_args : forall key ops,
+  k_arg (incr_call key ops) = incr_arg /\ k_arg (decr_call key ops) = decr_arg /\
+  k_kind (incr_call key ops) = Counter /\ k_kind (decr_call key ops) = Counter.
+Proof. intros key ops. repeat split; reflexivity. Qed.
